@@ -80,6 +80,7 @@ type Obs struct {
 // Oracle: library function graphs on the operands of one case.
 type Oracle struct {
 	PF   [][2]string `json:"pf"`   // [string, float bits or "" for a parse error]
+	PI   [][2]string `json:"pi"`   // [string, strconv.Atoi result or "" for an error]
 	FF   [][2]string `json:"ff"`   // [float bits, formatted]
 	Pow  [][3]string `json:"pow"`  // [x bits, y bits, math.Pow(x,y) bits]
 	OStr [][3]string `json:"ostr"` // ["obj"|"cls", id, AsString]
@@ -111,10 +112,15 @@ func toF(v *V) (float64, bool) {
 }
 
 func oracleFor(vs ...*V) *Oracle {
-	o := &Oracle{PF: [][2]string{}, FF: [][2]string{}, Pow: [][3]string{}, OStr: [][3]string{}}
+	o := &Oracle{PI: [][2]string{}, PF: [][2]string{}, FF: [][2]string{}, Pow: [][3]string{}, OStr: [][3]string{}}
 	for _, v := range vs {
 		switch v.K {
 		case "str":
+			if n, err := strconv.Atoi(v.S); err == nil {
+				o.PI = append(o.PI, [2]string{v.S, strconv.Itoa(n)})
+			} else {
+				o.PI = append(o.PI, [2]string{v.S, ""})
+			}
 			f, err := strconv.ParseFloat(v.S, 64)
 			if err != nil {
 				o.PF = append(o.PF, [2]string{v.S, ""})
